@@ -9,8 +9,8 @@
    THE PROPERTY AT FULL STRENGTH would be
        forall l : list action, exists f0, forall fuel, f0 <= fuel -> holds (settle fuel (run net0 l)) = true.
    It is FALSE for the faithful model (and for the code): C07_all_schedules_refuted.
-   What is PROVED is the single-break family, for every n and every k <= n (induction; unbounded):
-   C07_single_break.  Schedules of that family are outside the known-finding class
+   What is PROVED is the single-break family, for every n and every k <= n (induction; unbounded), in
+   each direction separately: C07_single_break (A sends), C07_single_break_B_to_A (B sends).  Schedules of that family are outside the known-finding class
    C07-break-loses-resend-reply (`reply_in_flight` at the break), the refutation witnesses are inside.
    General interleavings are not proved; they are explored by harness/c07.py (model BFS with state
    hashing + two real connection objects), which is exploration, not proof. *)
@@ -39,6 +39,24 @@ Theorem C07_single_break : forall (n k fuel : nat),
   /\ holds s = true.
 Proof. exact single_break_nk. Qed.
 Print Assumptions C07_single_break.
+
+(* The mirror image: B's application sends n messages, the first n - k reach A, the last k are in flight
+   when the link breaks.  (Here the Logon of the initiator is numbered as expected, the acceptor's Logon
+   REPLY is too high for A; A sends the ResendRequest and B replays.)  Same conclusion with the roles
+   exchanged.  Traffic in flight in BOTH directions at the break is not covered by a theorem: explored. *)
+Theorem C07_single_break_B_to_A : forall (n k fuel : nat),
+  (k <= n)%nat -> Z.of_nat n + 3 <= 9223372036854775807 -> (k + 4 <= fuel)%nat ->
+  let before_break :=
+    [AReconnect; ADeliver SB; ADeliver SA] ++ repeat (ASend SB) (n - k + k) ++ repeat (ADeliver SA) (n - k) in
+  let s := settle fuel (run net0 (before_break ++ [ABreak])) in
+  reply_in_flight (run net0 before_break) = false
+  /\ quiescent s = true
+  /\ st (wa s) = ST_ACTIVE /\ st (wb s) = ST_ACTIVE
+  /\ nin (wa s) = nout (wb s) /\ nin (wb s) = nout (wa s)
+  /\ sb s = texts 1 n /\ ga s = map Some (texts 1 n) /\ sa s = [] /\ gb s = []
+  /\ holds s = true.
+Proof. exact single_break_m_nk. Qed.
+Print Assumptions C07_single_break_B_to_A.
 
 (* `texts 1 n` is the list of the payload texts "m1" .. "mn" *)
 Example C07_texts : texts 1 3 = [payload 1; payload 2; payload 3] /\ payload 17 = [109; 49; 55]%N.
